@@ -7,9 +7,13 @@
   parsed tree (variable, callee, parameter, assignment target) is the value of a NAME token of the text — hence
   in `list_names(src)` — or one of the six implicit names (mutual induction over the levelled derivation
   relation, lifted to the parser by the soundness theorem of C06; SqLemmas/ParseNames.lean).
+  [B] `evaluation_looks_up_only_listed_names`: over WHOLE RUNS of the machine — through lambdas, map / filter /
+  reduce / sorted callbacks, host trampolines, assignments and their deep copies — every name the evaluator looks up
+  is a name `list_names(src)` reports or an implicit one (generic configuration invariant, SqLemmas/Inv*.lean).
 -/
 import Sq.Session
 import SqLemmas.ParseNames
+import SqLemmas.InvRun
 namespace SqProps.C18
 open Sq
 
@@ -108,6 +112,58 @@ theorem mentioned_names_are_listed (s : Session) (src : List Char) (ts : List To
     rw [List.mem_map]
     exact ⟨t, List.mem_filter.mpr ⟨hm, by simp [hty]⟩, hv⟩
   · exact Or.inr hi
+
+/-! ### [B] whole runs -/
+
+open Sq.Inv in
+/-- **every lookup of a whole evaluation is for a mentioned name**: let the program `tree`, the `ast_names` trees and the
+    closures already present in the host's world mention only names in `S`; then at every step of the run, through
+    every lambda call, callback of map / filter / reduce / sorted, host trampoline and assignment, the name the machine
+    looks up (`lookupOf`) is in `S` -/
+theorem lookups_are_mentioned (S : Name → Prop) (w : World) (bs : List Nat) (namesAddr budget : Nat) (tree : Op)
+    (astNames : List (Name × Op))
+    (hw : WorldNPg (fun _ body _ => MentionsIn S body) (fun _ => True) (fun _ => True) w)
+    (ht : MentionsIn S tree) (ha : ∀ p, p ∈ astNames → MentionsIn S p.2) (i : Nat) (n : Name)
+    (hl : lookupOf (run i (initCfg w bs namesAddr budget tree astNames)).core = some n) : S n :=
+  run_lookups_in S _ (init_names_inv S w bs namesAddr budget tree astNames hw ht ha) i n hl
+
+open Sq.Inv in
+/-- **the "consequently" clause of C18, over whole runs**: for a text that lexes and parses, evaluated against a host
+    world that holds no closures (plain data, builtins, host callables), every name any step of the evaluation looks
+    up — in the host's names mapping first, then in the builtins — is reported by `list_names(src)` or is one of the
+    six implicit names -/
+theorem evaluation_looks_up_only_listed_names (s : Session) (src : List Char) (ts : List Token) (st' : LexSt)
+    (hlex : lexFrom LexSt.init src = .ok (ts, st')) (tree : Op) (hp : parseTokens ts = .ok tree)
+    (w : World) (bs : List Nat) (namesAddr budget : Nat)
+    (hw : WorldNPg (fun _ _ _ => False) (fun _ => True) (fun _ => True) w) (i : Nat) (n : Name)
+    (hl : lookupOf (run i (initCfg w bs namesAddr budget tree)).core = some n) :
+    n ∈ (listNamesCall s src none).1.1 ∨ n ∈ implicitNameList := by
+  refine lookups_are_mentioned (fun x => x ∈ (listNamesCall s src none).1.1 ∨ x ∈ implicitNameList) w bs namesAddr budget
+    tree [] (hw.mono (fun _ _ _ h => h.elim) (fun _ h => h) (fun _ h => h)) ?_ (fun p hp => by cases hp) i n hl
+  exact mentioned_names_are_listed s src ts st' hlex tree hp
+
+open Sq.Inv in
+/-- the lookup classifier agrees with the one-transition lemmas above: a variable node looks up its own name -/
+example (n : Name) (vmi : Nat) (k : List Frame) (w : World) :
+    lookupOf { ctl := .ev (.name n) vmi, k := k, w := w } = some n := rfl
+
+open Sq.Inv in
+/-- non-vacuity: a host world binding `x` to a list of numbers and strings satisfies the hypothesis -/
+example : WorldNPg (fun _ _ _ => False) (fun _ => True) (fun _ => True)
+    { heap := #[.dict [(.str ['x'], .ref 1)], .list [.int 1, .str ['a']]], vms := [], log := [], rng := 0, rx := [],
+      probes := [] } := by
+  refine ⟨?_, fun a h => (by cases h), fun p h => (by cases h)⟩
+  intro a o hg
+  match a with
+  | 0 =>
+    simp [Heap.get?] at hg; subst hg
+    intro kv hkv; simp at hkv; subst hkv; exact ⟨.str, .ref⟩
+  | 1 =>
+    simp [Heap.get?] at hg; subst hg
+    intro v hv; simp at hv; rcases hv with e | e <;> subst e
+    · exact .int
+    · exact .str
+  | n + 2 => simp [Heap.get?] at hg
 
 /-! finite tests -/
 example : (listNamesResult LexSt.init "f(x, %my var%) + 'str' # c\nfor y".toList none).1 =
